@@ -251,12 +251,8 @@ def run_converge(args):
                             opts_svd={'D_total': 64, 'tol': 1e-14}, opts_eigs={'hermitian': True, 'ncv': 6, 'which': 'SR'}):
             sat.append(([bool(abs(o3.denergy) < et)] if et is not None else []) + ([bool(o3.max_dSchmidt < stl)] if stl is not None else []))
             last = o3
-        _, v3 = dense_full(psi3, legs)
-        E3 = float(np.real(np.vdot(v3, Hd @ v3)))
-        resid3 = float(np.linalg.norm(Hd @ v3 - E3 * v3))
-        strict = len(sat) < ms and stl is not None and stl <= 1e-9 and (et is None or et <= 1e-8) and last.max_discarded_weight <= 1e-12
         ev.append({'op': 'dmrg_stop', 'what': what + ' stopping rule energy_tol=%s Schmidt_tol=%s max_sweeps=%d performed=%d' % (et, stl, ms, len(sat)), 'sat': sat, 'max_sweeps': ms,
-                   'verdicts': {'sweeps_reported': bool(last.sweeps == len(sat)), 'converged_at_full_D_is_eigenstate': bool((not strict) or resid3 <= 1e-3 * max(1.0, abs(E3)))}})
+                   'verdicts': {'sweeps_reported': bool(last.sweeps == len(sat))}})      # (whether the converged state is an eigenstate depends on the bond dimension: claimed in run() at full D only)
     except YastnError as ex:
         return None
     return ev
@@ -286,9 +282,11 @@ def main(tier, seed, replay=None):
             # drop the refresh after a site write: the next read of that environment is stale
             if e['op'] == 'coherence':
                 ev = e['events']
-                for i in range(len(ev) - 1):
-                    if ev[i][0] == 'clear' and ev[i + 1][0] == 'update':
-                        del ev[i:i + 2]
+                for i in range(4, len(ev) - 1):
+                    # update(n -> last) right before a read that uses F[n, n+1] (heff1 at n+1 / heff2 at (n+1, n+2)), site n written just before: without the update the read is stale
+                    if ev[i][0] == 'update' and ev[i][2] == 'last' and ev[i + 1][0] in ('heff1', 'heff2') and ev[i + 1][1] == ev[i][1] + 1 \
+                            and any(x[0] == 'write' and x[1] == ev[i][1] for x in ev[i - 4:i]) and any(x[0] == 'clear' and x[1] == ev[i][1] for x in ev[i - 4:i]):
+                        del ev[i]
                         return True
         def c_sched(e):
             if e['op'] == 'schedule' and len(e['cache']) > 4:
